@@ -704,6 +704,10 @@ func (r *resolver) expandUses(parent HasDataDefinitions, u *Uses) ([]Definition,
 		}
 	}
 
+	// the body of the grouping is done, what the uses itself refines and adds is
+	// not part of it: a uses of the same grouping in there is not a recursion
+	delete(r.inProgressUses, g)
+
 	if err := r.applyRefinements(u, parent); err != nil {
 		return nil, err
 	}
@@ -713,15 +717,11 @@ func (r *resolver) expandUses(parent HasDataDefinitions, u *Uses) ([]Definition,
 		if err != nil {
 			return nil, err
 		}
-		if len(more) > 0 {
-			added = append(added, more...)
-		}
 	}
 
 	if r.trace {
 		fc.Debug.Printf("!USE %s:%s", parent.Ident(), u.Ident())
 	}
-	delete(r.inProgressUses, g)
 	resolved.defs = added
 
 	return added, nil
